@@ -316,6 +316,19 @@ def generate(repo):
         one_guard = ok
     unlink_first = 0 <= p_erase < p_impl and "make_scope_exit" not in dbody[:p_erase]
     p_push, p_cimpl = pos(cbody, r"sandbox_list\.push_back"), pos(cbody, r"impl_create_sandbox\s*\(")
+    # find_sandbox_from_example: the membership query of every list entry happens while the guard on the list is held
+    fbody = body_of_fn(sb, r"static\s+T_Sbx\*\s+find_sandbox_from_example\s*\(")
+    fg = re.search(r"RLBOX_ACQUIRE_(?:SHARED|UNIQUE)_GUARD\(\s*\w+\s*,\s*sandbox_list_lock\s*\)", fbody)
+    fq = re.search(r"is_pointer_in_sandbox_memory", fbody)
+    find_in_guard = False
+    if fg and fq and fg.start() < fq.start():
+        depth, okk = 0, True
+        for ch in fbody[fg.start():fq.start()]:
+            depth += {"{": 1, "}": -1}.get(ch, 0)
+            if depth < 0:
+                okk = False
+        find_in_guard = okk
+    L.append("def findQueriesInsideGuard : Bool := " + ("true" if find_in_guard else "false"))
     L.append("def destroyFindAndEraseInOneGuard : Bool := " + ("true" if one_guard else "false"))
     L.append("def destroyUnlinksBeforeBackendTeardown : Bool := " + ("true" if unlink_first else "false"))
     L.append("def createLinksAfterBackendCreate : Bool := " + ("true" if 0 <= p_cimpl < p_push else "false"))
